@@ -510,7 +510,16 @@ def run(ctx, use_model=True):
     try:
         n_docs = ctx.n(12, 80)
         for i in range(n_docs):
-            if i % 6 == 1:
+            if i == 0 or i == 3:
+                # boundary documents, in every run: the empty document (its TriG text is a single line break) and one that
+                # declares namespaces only
+                doc = ProvDocument()
+                if i == 3:
+                    doc.add_namespace("ex", "http://example.org/")
+                    doc.set_default_namespace("http://default.example/")
+                fmts = ["json", "xml", "rdf", "provn"]
+                ctx.count("boundary-document")
+            elif i % 6 == 1:
                 # long multi-byte content: any block-wise copying / decoding between the serializer's buffer and the destination
                 # must not depend on where a block boundary falls
                 doc = io_document(g)
